@@ -592,7 +592,19 @@ func (e *Exec) appendOp(args []Value, c *ssa.CallCommon, site string) Value {
 			}
 		}
 	}
-	// otherwise reallocate (appends to slices created during the run never alias here: code relying on that is out of scope)
+	// within capacity Go appends in place (deterministically): the result shares the backing array, and the
+	// new elements are ordinary stores (seen by the write monitor when the array is older than the run or has
+	// been published into the linted object, e.g. zcrypto's parse cache reused through s[:0])
+	if dst.O != nil && !strings.HasPrefix(dst.O.Tag, "lazy:") && int(dn)+len(srcElems) <= dst.Cap {
+		if arr, ok := dst.O.V.(*ArrayV); ok && len(dst.P) == 0 && dst.Off+int(dn)+len(srcElems) <= len(arr.E) {
+			for i, v := range srcElems {
+				e.store(&PtrV{O: dst.O, Path: []int{dst.Off + int(dn) + i}}, v, site)
+			}
+			return &SliceV{O: dst.O, P: dst.P, Off: dst.Off, Len: cbv(uint64(int(dn)+len(srcElems)), 64), Cap: dst.Cap}
+		}
+	}
+	// beyond capacity: reallocate (the new capacity is exactly the new length here; code that relies on the
+	// runtime's growth policy for aliasing between later appends is out of scope)
 	narr := &ArrayV{E: make([]Value, 0, int(dn)+len(srcElems))}
 	for i := 0; i < int(dn); i++ {
 		narr.E = append(narr.E, e.sliceElem(dst, i))
